@@ -1350,7 +1350,11 @@ impl World {
                                     let port = u64::from(u16::from_be_bytes([p[4], p[5]]));
                                     self.fid_port.insert(id, port);
                                     if let Some((oe, req)) = self.open_ports.get(&port).copied() {
-                                        if oe == e && self.view[e].opens.contains_key(&req) { self.pend[e].insert(id, req); }
+                                        // (a request has ONE proposal outstanding: a Connect for it under another id means the
+                                        // earlier proposal was given up — refused by the peer, or its slot taken away by a stale
+                                        // drop notification of an earlier stream on that id, the flow-id-reuse finding — and that
+                                        // id is no longer in use by this request)
+                                        if oe == e && self.view[e].opens.contains_key(&req) { self.pend[e].retain(|_, r| *r != req); self.pend[e].insert(id, req); }
                                     }
                                 }
                             }
